@@ -240,6 +240,7 @@ func gen(r *fw.RNG, o Opts, depth int, inRec bool) *Sel {
 // member of a top-level union (that would recurse without consuming a path
 // segment, which is the degenerate shape C10 exercises instead).
 func genSeq(r *fw.RNG, o Opts, depth int) *Sel {
+	twoEdges := o.Hostile || r.Chance(1, 4)
 	for tries := 0; ; tries++ {
 		s := gen(r, o, depth, true)
 		if !hasEdge(s) {
@@ -255,7 +256,9 @@ func genSeq(r *fw.RNG, o Opts, depth int) *Sel {
 		// the whole sequence, and several live edges give unions of unions): the walk's cost is
 		// (number of edges)^depth. Ordinary selectors have one edge; hostile ones at most two.
 		maxEdges := 1
-		if o.Hostile {
+		if twoEdges {
+			// (two edges also in ordinary selectors now and then: since the substitute-once repair of §4 two
+			// edges no longer multiply the selector when they meet in one union)
 			maxEdges = 2
 		}
 		if countEdges(s) > maxEdges {
